@@ -14,10 +14,11 @@ from ..runner import Skip
 
 RULE = ("cases from rng(seed, 7, 0, i): trajectory graphs of kind r2/r3/se2/se3 (3..20 poses, loops, landmarks with rotated offsets, dense SPD information, "
         "noisy measurements, perturbed initial guess or the textbook straight-line guess with exactly zero headings) and a frame change T with |t| up to 1e4 (1e6 thorough) and rotation from hostile classes (near 180 deg, "
-        "w<0, angle at +-pi); K in 1..5 iterations. distinct = fingerprint(spec, T, K); non-trivial = T has non-zero translation and (for SE types) non-identity rotation "
+        "w<0, angle at +-pi); K in 1..5 iterations; landmarks sometimes share one initial-guess object, sometimes lie kilometres away with guesses off by thousands; every 3rd case also moves one graph object to the new frame in place. distinct = fingerprint(spec, T, K); non-trivial = T has non-zero translation and (for SE types) non-identity rotation "
         "and the optimizer moved some vertex by more than 1e-6.")
 REQ = ["eval:chi2-frame-invariant", "eval:trajectory-commutes-with-frame-change", "class:se2", "class:se3", "class:r2", "class:r3", "class:T:near180_or_pi", "class:K=1", "class:K=5",
-       "class:landmarks", "class:straight_line_initial_guess(exact zero headings)"]
+       "class:landmarks", "class:straight_line_initial_guess(exact zero headings)", "class:frame_changed_in_place_on_same_objects", "class:landmarks_share_one_initial_guess_object",
+       "class:large_scale_map_far_landmark_guesses"]
 PLAN = {
     "quick": {"cases": 1200, "soft_s": 80, "min_nontrivial": 300, "require": REQ},
     "thorough": {"cases": 50000, "soft_s": 1300, "min_nontrivial": 10000, "require": REQ},
@@ -27,6 +28,7 @@ ASSUMPTIONS = ["cases whose SE(2) angular error is within 1e-6 of +-pi are exclu
 
 def transform_spec(spec, k, T):
     s = gen.copy_spec(spec)
+    s.pop("share", None)  # the moved copy owns its poses (storage sharing is a property of how the client built G, not of the physical graph)
     kp = R.POINT_OF[k]
     for v in s["vertices"]:
         if v["kind"] == k and k not in ("r2", "r3"):
@@ -36,7 +38,7 @@ def transform_spec(spec, k, T):
     return s
 
 
-def frame_check(ctx, spec, k, T, K, tl=(), where="generated", cond_max=1e8):
+def frame_check(ctx, spec, k, T, K, tl=(), where="generated", cond_max=1e8, inplace=False):
     """Compare G with T.G: chi2 and the state after K iterations.  Returns (moved, c0, c1, cond, worst, tol) or None."""
     n = len(spec["vertices"])
     spec_t = transform_spec(spec, k, T)
@@ -100,6 +102,34 @@ def frame_check(ctx, spec, k, T, K, tl=(), where="generated", cond_max=1e8):
         moved = max(moved, d0[0], d0[1])
     ctx.margin("trajectory-commutes-with-frame-change", worst / tol)
     ctx.check("trajectory-commutes-with-frame-change", worst <= tol, dict(feats, K=K), {"worst": worst, "tol": tol, "cond": cond, "T": T}, case)
+    if inplace:
+        # history: the same graph object evaluated in the original frame, then moved to the new frame by writing into the pose arrays in place
+        gi = M.build(spec)
+        with np.errstate(all="ignore"):
+            gi.calc_chi2()
+            for e in gi._edges:
+                e.calc_error()
+                e.calc_jacobians()
+        for v, vt0 in zip(gi._vertices, spec_t["vertices"]):
+            v.pose[:] = M.fl(M.mkpose(vt0["kind"], vt0["pose"]))
+        with np.errstate(all="ignore"):
+            ci = float(gi.calc_chi2())
+        ctx.close("chi2-frame-invariant", ci, c0, bound + 64 * R.EPS * abs(c0), dict(feats, frame_change="in place on the same objects"), {"T": T}, case)
+        try:
+            M.quiet_optimize(gi, max_iter=K, tol=0.0)
+            wi = 0.0
+            for v, vt in zip(gi._vertices, gt._vertices):
+                kk = M.kind(v.pose)
+                p, q = M.fl(v.pose), M.fl(vt.pose)
+                if not all(math.isfinite(x) for x in p + q):
+                    wi = math.inf
+                    continue
+                dt, dr = M.pose_distance(kk, p, q)
+                wi = max(wi, dt, dr)
+            ctx.check("trajectory-commutes-with-frame-change", wi <= tol, dict(feats, K=K, frame_change="in place on the same objects"), {"worst": wi, "tol": tol, "T": T}, case)
+        except Exception as ex:
+            ctx.check("trajectory-commutes-with-frame-change", False, dict(feats, exception=type(ex).__name__, frame_change="in place on the same objects"), {"message": str(ex)[:300]}, case)
+        ctx.count("class:frame_changed_in_place_on_same_objects")
     return moved, c0, c1, cond, worst, tol
 
 
@@ -111,7 +141,15 @@ def run_case(ctx, i, rng):
     if straight:
         n = min(n, 6)
         ctx.count("class:straight_line_initial_guess(exact zero headings)")
-    spec = gen.trajectory_graph(rng, k, n, n_loops=int(rng.integers(0, n // 2 + 1)), n_lm=int(rng.integers(0, 3)), meas_t=0.03, meas_r=0.01,
+    n_lm = int(rng.integers(0, 4))
+    share = bool(n_lm >= 2 and rng.random() < 0.4)
+    large = bool(n_lm >= 1 and rng.random() < 0.2)
+    if share:
+        ctx.count("class:landmarks_share_one_initial_guess_object")
+    if large:
+        ctx.count("class:large_scale_map_far_landmark_guesses")
+    spec = gen.trajectory_graph(rng, k, n, n_loops=int(rng.integers(0, n // 2 + 1)), n_lm=n_lm, share_landmark_guess=share, scale=(3e3 if large else 5.0),
+                                lm_init=(4e3 if large else None), meas_t=0.03, meas_r=0.01,
                                 init_t=float(rng.uniform(0.01, 0.15)), init_r=float(rng.uniform(0.005, 0.08)), cond=float(10 ** rng.uniform(0, 3)), cross=True,
                                 straight_init=straight, step=(0.3 if straight else 1.0))
     maxexp = 4.0 if ctx.tier == "quick" else 6.0
@@ -122,7 +160,7 @@ def run_case(ctx, i, rng):
     for lab in tl:
         if lab in ("q:near180", "q:wzero", "q:axis180", "a:nearpi_in", "a:nearpi_out", "a:exact"):
             ctx.count("class:T:near180_or_pi")
-    res = frame_check(ctx, spec, k, T, K)
+    res = frame_check(ctx, spec, k, T, K, inplace=bool(i % 3 == 0), cond_max=(1e12 if large else 1e8))
     if res is None:
         return
     moved, c0, c1, cond, worst, tol = res
